@@ -243,7 +243,7 @@ pub fn digest(files: &std::collections::HashMap<&'static str, String>) -> Value 
             .collect();
           items.push(json!({"file": fname, "kind": "struct", "name": name, "vis": it["vis"], "ser": has("Serialize"), "de": has("Deserialize"),
             "val": has("Validate"), "bare": derives.iter().filter(|d| !d.contains("::")).collect::<Vec<_>>(),
-            "serdeAs": attrs.iter().any(|a| a.starts_with("serde_with::serde_as") || a == "serde_as"), "fields": fields}));
+            "serdeAs": attrs.iter().any(|a| a.starts_with("serde_with::serde_as") || a == "serde_as"), "reqStruct": !has("PartialEq"), "fields": fields}));
         }
         "enum" => {
           let mut refs = vec![];
